@@ -44,6 +44,8 @@ type report struct {
 	DriverRewrites  []string          `json:"driver_rewrites"`
 	RewrittenFiles  []string          `json:"rewritten_files"`
 	PoolPatched     bool              `json:"sync_pool_patched"`
+	TickSites       []string          `json:"clock_tick_sites"`
+	TickMode        string            `json:"clock_tick_mode"`
 	PackageLevelVar []string          `json:"package_level_vars"`
 }
 
@@ -80,6 +82,33 @@ func main() {
 	}
 	sort.Slice(pkgs, func(i, j int) bool { return pkgs[i].PkgPath < pkgs[j].PkgPath })
 
+	// choose the clock mode: is there a recognisable dispatch loop?
+	hasDispatch := false
+	for _, p := range pkgs {
+		if !strings.HasPrefix(p.PkgPath, modPath) || strings.HasPrefix(p.PkgPath, modPath+"/cmd/") {
+			continue
+		}
+		for _, f := range p.Syntax {
+			ast.Inspect(f, func(n ast.Node) bool {
+				switch l := n.(type) {
+				case *ast.ForStmt:
+					if l.Body != nil && isDispatchLoop(l.Body) {
+						hasDispatch = true
+					}
+				case *ast.RangeStmt:
+					if l.Body != nil && isDispatchLoop(l.Body) {
+						hasDispatch = true
+					}
+				}
+				return true
+			})
+		}
+	}
+	if !hasDispatch {
+		tickMode = "all"
+	}
+	rep.TickMode = tickMode
+
 	srcOut := filepath.Join(*out, "src")
 	for _, p := range pkgs {
 		if !strings.HasPrefix(p.PkgPath, modPath) {
@@ -92,7 +121,8 @@ func main() {
 			if err != nil || strings.HasPrefix(rel, "..") {
 				continue
 			}
-			rw := &rewriter{pkg: p, file: f, rel: rel, rep: rep, driver: isDriver}
+			// the clock seam: instruction-dispatch loops of the library tick
+			rw := &rewriter{pkg: p, file: f, rel: rel, rep: rep, driver: isDriver, ticks: !isDriver && tickMode != "none"}
 			changed := rw.run()
 			if !changed {
 				continue
@@ -218,8 +248,47 @@ type rewriter struct {
 	rel     string
 	rep     *report
 	driver  bool
+	ticks   bool // interpreter package: every loop iteration is a clock tick
 	n       int
 	needSim bool
+}
+
+// tickMode: "dispatch" = only loops that dispatch on opcodes tick (a loop
+// whose body holds a switch with at least 8 case clauses: one tick = one VM
+// instruction); "all" = every loop of package vm (fallback when no dispatch
+// loop is recognisable, e.g. after a refactoring).
+var tickMode = "dispatch"
+
+// isDispatchLoop reports whether the loop body (not looking into nested
+// function literals) contains a switch statement with many cases.
+func isDispatchLoop(body *ast.BlockStmt) bool {
+	found := false
+	ast.Inspect(body, func(n ast.Node) bool {
+		switch s := n.(type) {
+		case *ast.FuncLit:
+			return false
+		case *ast.SwitchStmt:
+			if s.Body != nil && len(s.Body.List) >= 8 {
+				found = true
+			}
+		}
+		return !found
+	})
+	return found
+}
+
+func (r *rewriter) wantsTick(body *ast.BlockStmt) bool {
+	if !r.ticks || body == nil {
+		return false
+	}
+	if tickMode == "all" {
+		return r.pkg.PkgPath == modPath+"/vm"
+	}
+	return isDispatchLoop(body)
+}
+
+func tickStmt() ast.Stmt {
+	return &ast.ExprStmt{X: &ast.CallExpr{Fun: simSel("Tick")}}
 }
 
 func (r *rewriter) site(pos token.Pos, fn string) string {
@@ -276,9 +345,20 @@ func (r *rewriter) run() bool {
 	}
 	post := func(c *astutil.Cursor) bool {
 		switch n := c.Node().(type) {
+		case *ast.ForStmt:
+			if r.wantsTick(n.Body) {
+				r.rep.TickSites = append(r.rep.TickSites, r.site(n.Pos(), curFn))
+				n.Body.List = append([]ast.Stmt{tickStmt()}, n.Body.List...)
+				r.needSim, changed = true, true
+			}
 		case *ast.RangeStmt:
 			if r.driver {
 				return true
+			}
+			if r.wantsTick(n.Body) {
+				r.rep.TickSites = append(r.rep.TickSites, r.site(n.Pos(), curFn))
+				n.Body.List = append([]ast.Stmt{tickStmt()}, n.Body.List...)
+				r.needSim, changed = true, true
 			}
 			tv, ok := info.Types[n.X]
 			if !ok {
